@@ -592,6 +592,19 @@ func GenCase(prop string, seed uint64, thorough bool) *Case {
 		return genLife(seed, g, thorough)
 	case "C19":
 		return genRecover(seed, g, thorough)
+	case "C16":
+		if r.p(0.1) {
+			// tables rebuilt by Recover carry filters too
+			cc := genRecover(seed, g, thorough)
+			cc.Prop = "C16"
+			if cc.Knobs.FilterBits == 0 {
+				cc.Knobs.FilterBits = r.pick(10, 4, 1, -1)
+			}
+			if cc.Damage.Blocks == 0 && r.p(0.7) {
+				cc.Damage.Blocks = r.rng(1, 3)
+			}
+			return cc
+		}
 	case "C06":
 		if r.p(0.12) {
 			// the well-formedness conditions "must hold after ... Recover":
@@ -624,7 +637,7 @@ func GenCase(prop string, seed uint64, thorough bool) *Case {
 		p.wWrite, p.wGet, p.wIter, p.wSnap, p.wTx, p.wCompact, p.wReopen, p.wSleep, p.wSettle, p.wKeepIter = 55, 3, 2, 2, 4, 6, 3, 4, 6, 15
 		c.Knobs.MaxManifest = 0
 	case "C16":
-		p.wWrite, p.wGet, p.wIter, p.wCompact, p.wReopen = 50, 30, 8, 4, 8
+		p.wWrite, p.wGet, p.wIter, p.wCompact, p.wReopen, p.wSnap, p.wSnapRead = 50, 30, 8, 4, 8, 4, 12
 		if c.Knobs.FilterBits == 0 {
 			c.Knobs.FilterBits = r.pick(1, 2, 10, 64, -1)
 		}
